@@ -49,7 +49,7 @@ def catalog():
             setup += [["run", "ex", 0]]
         out["race/" + inner] = {"inner": inner, "prog": {
             "setup": setup,
-            "threads": [[["shutdown", "ex", True], ["shutdown", "ex", True]], [sub("s0"), sub("s1")], [sub("s2")]],
+            "threads": [[["shutdown", "ex", True, {"cancel_futures": True}], ["shutdown", "ex", True]], [sub("s0"), sub("s1")], [sub("s2")]],
             "settle": 1, "final": [["open", "g"], ["sleep", 1]]}}
         out["race-nowait/" + inner] = {"inner": inner, "prog": {
             "setup": setup,
@@ -81,7 +81,14 @@ def evaluate(case):
         return viols, info
     sd = min(sds, key=lambda o: o["call_seq"])  # the first shutdown(); later ones (same thread) must be harmless
 
+    # (cancels issued from INSIDE the wrapped executor's shutdown - a thread pool told cancel_futures=True cancels its queued work
+    # items itself - are not the sweep's)
+    inner_sd = [ev for ev in s.events if ev[3] == "tap_shutdown"]
+    inner_from = dict((ev[2], ev[0]) for ev in inner_sd)
+
     def in_shutdown(seq, thread):
+        if thread in inner_from and seq > inner_from[thread]:
+            return False
         return any(o["thread"] == thread and o["call_seq"] < seq < o["ret_seq"] for o in sds)
     ids = dict((id(f), n) for n, f in w.futs.items())
     cancels = {}
@@ -143,6 +150,9 @@ def evaluate(case):
             bad("inner-shutdown-outside-shutdown-call")
         if taps[0][4]["wait"] != sd["op"][2]:
             bad("inner-shutdown-wait-argument", got=taps[0][4], want=sd["op"][2])
+        want_kw = sd["op"][3] if len(sd["op"]) > 3 else {}
+        if taps[0][4].get("kwargs") != want_kw:
+            bad("inner-shutdown-keyword-arguments", got=taps[0][4].get("kwargs"), want=want_kw)
     info["nt"] = nt
     return viols, info
 
@@ -203,9 +213,14 @@ def case_strategy():
         d = draw(st.sampled_from([0, 0, 0.25]))
         if d:
             threads[0].append(["sleep", d])
-        threads[0].append(["shutdown", "ex", draw(st.booleans())])
+        kws = st.sampled_from([None, None, {"cancel_futures": True}, {"cancel_futures": False}])  # (legal keyword of Executor.shutdown)
+
+        def sd():
+            kw = draw(kws)
+            return ["shutdown", "ex", draw(st.booleans())] + ([kw] if kw is not None else [])
+        threads[0].append(sd())
         if draw(st.integers(0, 2)) == 0:
-            threads[0].append(["shutdown", "ex", draw(st.booleans())])
+            threads[0].append(sd())
         k = 0
         for t in range(nsub):
             ops = []
